@@ -639,3 +639,27 @@ package notify
 //@   ensures [nothing-random-or-seeded] !called("rand.") && !called("NewWithSeed") && !called("maphash") && !called("time.Now")
 //@   loop 2 invariant !called("xxhash/v2.Sum64") && !called("sort.Sort")
 //@   loop 1 invariant count("sort.Sort") == 1 && !called("xxhash/v2.Sum64")
+
+// ---- C04 / C05 / C20: the stage constructors keep what they are given: the notification log and the very identity
+// object (receiver name, integration, index) under which this integration's entries are looked up and recorded; the
+// dedup stage hashes with hashAlert and reads the UTC clock; the retry stage delivers through the integration given;
+// the cluster wait stage asks the function given, each time.
+//@ func NewSetNotifiesStage
+//@   props C04 C05 C20 C10
+//@   ensures [log-and-identity-as-given] result != nil && fresh(result) && result.nflog == l && result.recv == recv
+//@   ensures [the-identity-object-is-untouched] recv != nil ==> recv.GroupName == old(recv.GroupName) && recv.Integration == old(recv.Integration) && recv.Idx == old(recv.Idx)
+//@   assigns nothing
+//@ func NewDedupStage
+//@   props C04 C05 C20 C10
+//@   ensures [log-and-identity-as-given] result != nil && fresh(result) && result.nflog == l && result.recv == recv && result.rs == rs
+//@   ensures [the-identity-object-is-untouched] recv != nil ==> recv.GroupName == old(recv.GroupName) && recv.Integration == old(recv.Integration) && recv.Idx == old(recv.Idx)
+//@   assigns nothing
+//@ func NewClusterWaitStage
+//@   props C04 C05 C20
+//@   ensures [asks-the-function-given] result != nil && fresh(result) && result.wait == wait
+//@   assigns nothing
+//@ func NewRetryStage
+//@   props C20 C05
+//@   nosafe
+//@   noeffect Integration).Name EnableReceiverNamesInMetrics
+//@   ensures [delivers-through-the-integration-given] result != nil && fresh(result) && result.integration.notifier == i.notifier && result.integration.idx == i.idx && result.integration.name == i.name && result.groupName == groupName && result.metrics == metrics
